@@ -89,14 +89,20 @@ class UnitCtor(Contract):
         yield "table-grows", same_table_grows(c, "Unit._known")
 
 
+def simplified(S):
+    """_simplify as a term: the map with value array S (One already zeroed) restricted to its
+    non-zero entries, or {One: 1} when nothing is left"""
+    b = z3.Const("b!sp", U)
+    nz = z3.Lambda([b], z3.Select(S, b) != 0)
+    return z3.If(S == z3.K(U, z3.IntVal(0)), single_map(One.ref), fmap_z(nz, S))
+
+
 def merged_post(c, o, r, self, other, sign):
     """factor map of the result of self*other (sign=1) / self/other (sign=-1), after
     _simplify: One and zero exponents dropped, {One: 1} if nothing is left"""
     b = z3.Const("b!mp", U)
-    S = lambda x: z3.If(x == One.ref, z3.IntVal(0), facv(o, self, x) + sign * facv(o, other, x))
-    allzero = z3.ForAll([b], S(b) == 0)
-    yield "factors-merged", z3.If(allzero, c.f(r, "factors") == single_map(One.ref),
-                                  z3.ForAll([b], z3.And(facv(c, r, b) == S(b), z3.Select(fac(c, r).dom, b) == (S(b) != 0))))
+    S = z3.Lambda([b], z3.If(b == One.ref, z3.IntVal(0), facv(o, self, b) + sign * facv(o, other, b)))
+    yield "factors-merged", c.f(r, "factors") == simplified(S)
 
 
 class _UnitBin(Contract):
@@ -161,9 +167,8 @@ class UnitPow(Contract):
         yield "is-unit", live(c, r)
         yield "prefix-power", is_canon(c, VObj("Prefix", c.f(r, "prefix")), pbase(o, p_old), pexp(o, p_old) * z3.ToReal(n))
         b = z3.Const("b!pw", U)
-        S = lambda x: z3.If(x == One.ref, z3.IntVal(0), facv(o, a.self, x) * n)
-        yield "factors-scaled", z3.If(z3.ForAll([b], S(b) == 0), c.f(r, "factors") == single_map(One.ref),
-                                      z3.ForAll([b], z3.And(facv(c, r, b) == S(b), z3.Select(fac(c, r).dom, b) == (S(b) != 0))))
+        S = z3.Lambda([b], z3.If(b == One.ref, z3.IntVal(0), facv(o, a.self, b) * n))
+        yield "factors-scaled", c.f(r, "factors") == simplified(S)
         dr, ds = VObj("Dimension", c.f(r, "dimension")), VObj("Dimension", o.f(a.self, "dimension"))
         yield "dimension", pointwise(c, dr, lambda i: dexp(o, ds, i) * n)
         for t in ("Unit._known", "Prefix._known", "Dimension._known"):
